@@ -502,7 +502,7 @@ Definition lgo (fixed : bool) (inner : list seg) (cu : list (key * utree)) :=
                  fold_left (fun acc kv =>
                               rbind acc (fun inv0 =>
                                 rbind (abs_keys (normalize (inner ++ p ++ [Dn (fst kv)]))) (fun tgt =>
-                                  place_mode 2 inv0 tgt (snd kv)))) cu (Ok inv)
+                                  place_mode (if fixed then 1%nat else 2%nat) inv0 tgt (snd kv)))) cu (Ok inv)
                | TDict q'' _ =>
                  let inner2 := match q'' with Some q => normalize (inner ++ q) | None => inner end in
                  fold_left (fun acc kv =>
